@@ -10,6 +10,7 @@ Streams
               return exactly the planted value
   lint        a sample of grid files through `reuse lint --json`
   window      tag lines around the 4096-byte boundary, multi-byte characters on the cut, snippet marker before / after / absent
+  snippetfile files with a snippet marker: the marker straddling 4096*k, 8-20 KiB files with tags / ignore blocks on the boundaries
   parseerror  an unparseable expression anywhere in the file => the file contributes nothing; the converse shape
   decode      decoded_text_from_binary against the model's UTF-8 decoder on random byte strings
   smallenum   exhaustive small-alphabet lines `<pre> TAG <value> <trail>`
@@ -457,6 +458,10 @@ CORPUS = [
     {"text": "c SPDX-FileContributor: Eric\nc Copyright 2020 Eric\n", "L": [], "C": ["Copyright 2020 Eric"], "N": ["Eric"]},
     {"text": "# SPDX-FileContributor: Team C#\n# SPDX-License-Identifier: MIT\n", "L": ["MIT"], "C": [], "N": ["Team C#"]},
     {"text": "/***********************\\\n|*  SPDX-License-Identifier: MIT  *|\n\\***********************/\n", "L": ["MIT"], "C": [], "N": []},
+    # a tag without a value takes nothing from the following line; a tab separates as well as a blank
+    {"text": "# SPDX-License-Identifier:\n# SPDX-FileCopyrightText: 2020 Jane\n", "L": [], "C": ["SPDX-FileCopyrightText: 2020 Jane"], "N": []},
+    {"text": "# SPDX-FileContributor:\n# Copyright 2020 Jane\n", "L": [], "C": ["Copyright 2020 Jane"], "N": []},
+    {"text": "# SPDX-License-Identifier:\tMIT\n#\tSPDX-FileContributor:\t\tJane Doe\t\n", "L": ["MIT"], "C": [], "N": ["Jane Doe"]},
     # lone carriage returns
     {"text": "# SPDX-License-Identifier: MIT\r# SPDX-FileCopyrightText: 2020 Jane\r# foo\r", "L": ["MIT"],
      "C": ["SPDX-FileCopyrightText: 2020 Jane"], "N": []},
@@ -732,6 +737,170 @@ class WindowStream(Stream):
 
 
 # --------------------------------------------------------------------------
+# files with a snippet marker: read as a whole, whatever lies on a 4096-byte boundary
+
+
+class SnippetFileStream(Stream):
+    name = "snippetfile"
+    rule = ("(a) the snippet marker placed so that it straddles a multiple of 4096 bytes (marker starting 1..16 bytes before 4096*k, k = 1, 2, "
+            "3), the only tags lying beyond byte 4096; (b) files of 8-20 KiB with a snippet marker (at the start, in the middle or at the end): "
+            "tag lines, REUSE-IgnoreStart / REUSE-IgnoreEnd markers and hidden tags placed so that they straddle or directly follow the 4096-byte "
+            "boundaries (a tag line cut by a boundary, an ignore block spanning a boundary with a hidden tag right after it, the ignore marker "
+            "itself cut by a boundary); oracle = generator ground truth: exactly the tags planted outside ignore blocks are reported; "
+            "non-trivial = distinct (scenario list, marker position)")
+
+    IGN_S = "REUSE-IgnoreStart"
+    IGN_E = "REUSE-IgnoreEnd"
+
+    def cases(self, tier, rng):
+        for k in (1, 2, 3):
+            for d in range(1, 17):
+                yield {"plan": "marker-straddle", "k": k, "d": d}
+        n = 400 if tier == "thorough" else 60
+        for i in range(n):
+            nb = rng.randint(2, 4)
+            yield {"plan": "whole", "marker": rng.choice(["start", "middle", "end"]),
+                   "scen": [rng.choice(["tag", "ignore-span", "ignstart-cut", "ignend-cut", "plain", "tag"]) for _ in range(nb)],
+                   "r": [rng.randint(1, 40) for _ in range(nb)], "seed": rng.randrange(10 ** 6)}
+
+    # -- builder ------------------------------------------------------------
+    class B:
+        def __init__(self):
+            self.buf = bytearray()
+            self.hidden = False
+            self.lic, self.cpr = set(), set()
+            self.n = 0
+
+        def filler(self, n):
+            """exactly n bytes of filler lines (n == 0 or n >= 2)"""
+            assert n == 0 or n >= 2, n
+            while n > 0:
+                take = 64 if n >= 66 or n == 64 else n
+                self.buf += b"#" + b"x" * (take - 2) + b"\n"
+                n -= take
+
+        def pad_to(self, off):
+            cur = len(self.buf)
+            if off - cur == 1:
+                off += 1
+            if off > cur:
+                self.filler(off - cur)
+
+        def tag(self, kind):
+            self.n += 1
+            if kind == "L":
+                v = ["MIT", "ISC", "0BSD", "Zlib", "Apache-2.0", "GPL-3.0-or-later", "MPL-2.0", "CC0-1.0", "BSD-2-Clause", "curl", "X11", "Unlicense"][self.n % 12]
+                v = v if self.n < 12 else "%s OR LicenseRef-n%d" % (v, self.n)
+                self.buf += ("# %s %s\n" % (LIC_TAG, v)).encode()
+                if not self.hidden:
+                    self.lic.add(parse_expr(v))
+            else:
+                v = "SPDX-FileCopyrightText: 20%02d Holder Nr %d" % (self.n % 30, self.n)
+                self.buf += ("# %s\n" % v).encode()
+                if not self.hidden:
+                    self.cpr.add(v)
+
+        def line(self, text):
+            self.buf += (text + "\n").encode()
+
+    def build(self, case):
+        import random
+        b = self.B()
+        if case["plan"] == "marker-straddle":
+            start = 4096 * case["k"] - case["d"]        # offset of the marker text
+            b.pad_to(start - 2)
+            assert len(b.buf) == start - 2, (len(b.buf), start)
+            b.line("# " + SNIPPET)
+            b.tag("L")
+            b.tag("C")
+            b.filler(200)
+            b.line("# SPDX-SnippetEnd")
+            return bytes(b.buf), b.lic, b.cpr
+        rng = random.Random(case["seed"])
+        if case["marker"] == "start":
+            b.line("# " + SNIPPET)
+        for i, (sc, r) in enumerate(zip(case["scen"], case["r"])):
+            bound = 4096 * (i + 1)
+            if case["marker"] == "middle" and i == 1:
+                b.line("# " + SNIPPET)
+            kind = "L" if (i + r) % 2 else "C"
+            if sc == "tag":
+                b.pad_to(bound - 200)
+                b.tag("C" if kind == "L" else "L")
+                b.pad_to(bound - r)
+                b.tag(kind)                         # cut by the boundary
+                b.tag("L")
+            elif sc == "ignore-span":
+                b.pad_to(bound - 300)
+                b.tag(kind)
+                b.line("# " + self.IGN_S)
+                b.hidden = True
+                b.tag("L")
+                b.pad_to(bound + (r % 3))           # the next (hidden) tag starts right at / after the boundary
+                b.tag("L")
+                b.tag("C")
+                b.line("# " + self.IGN_E)
+                b.hidden = False
+                b.tag("C")
+            elif sc == "ignstart-cut":
+                b.pad_to(bound - 2 - (r % len(self.IGN_S)) - 1)
+                b.line("# " + self.IGN_S)          # the marker itself is cut by the boundary
+                b.hidden = True
+                b.tag(kind)
+                b.line("# " + self.IGN_E)
+                b.hidden = False
+                b.tag(kind)
+            elif sc == "ignend-cut":
+                b.pad_to(bound - 400)
+                b.line("# " + self.IGN_S)
+                b.hidden = True
+                b.tag(kind)
+                b.pad_to(bound - 2 - (r % len(self.IGN_E)) - 1)
+                b.line("# " + self.IGN_E)
+                b.hidden = False
+                b.tag(kind)
+            else:
+                b.pad_to(bound + r)
+                b.tag(kind)
+        b.filler(rng.randint(2, 3000))
+        if case["marker"] == "end" or (case["marker"] == "middle" and len(case["scen"]) < 2):
+            b.line("# " + SNIPPET)
+        b.tag("C")
+        return bytes(b.buf), b.lic, b.cpr
+
+    def impl(self, case):
+        data, lic, cpr = self.build(case)
+        return impl_info_of_bytes(data)
+
+    def model_lines(self, case):
+        data, lic, cpr = self.build(case)
+        return ["infofile\t%s\t%s" % (enc_bytes(data), enc_list(bad_values(data)))]
+
+    def model_out(self, case, outs):
+        return model_info_out(outs[0])
+
+    def oracle(self, case, impl_out):
+        if impl_out.startswith("EXC"):
+            return "snippetfile-crash: " + impl_out
+        data, lic, cpr = self.build(case)
+        want = canon(lic, cpr, [])
+        if impl_out != want:
+            return "snippet-file: file of %d bytes with a snippet marker at byte %d (%s): reported %s, planted outside ignore blocks %s" % (
+                len(data), data.find(SNIPPET.encode()), case["plan"] if case["plan"] != "whole" else ",".join(case["scen"]),
+                show_canon(impl_out), show_canon(want))
+        return None
+
+    def nontrivial(self, case, impl_out):
+        if case["plan"] == "marker-straddle":
+            return ("marker-straddle", case["k"], case["d"])
+        return (tuple(case["scen"]), case["marker"])
+
+    def show(self, case):
+        data, lic, cpr = self.build(case)
+        return {"case": case, "size": len(data), "marker_at": data.find(SNIPPET.encode())}
+
+
+# --------------------------------------------------------------------------
 # unparseable expressions
 
 BAD_EXPRS = ["MIT AND", "(MIT", "MIT OR OR Apache-2.0", "GPL-2.0-only WITH", "MIT,", "MIT/X11", "Apache 2.0 (see LICENSE)", "AND", "MIT)"]
@@ -945,7 +1114,7 @@ def table_roundtrip():
 def search(seed):
     """deeper search after a broken obligation / disagreement: the grid and the window at thorough size"""
     import random
-    for S in (GridStream(), WindowStream(), ParseErrorStream(), SmallEnumStream()):
+    for S in (GridStream(), WindowStream(), SnippetFileStream(), ParseErrorStream(), SmallEnumStream()):
         rng = random.Random("search:%s:%d" % (S.name, seed))
         known = {f["key"] for f in __import__("core").load_known().get("findings", []) if f.get("property") == "C02"}
         for case in S.cases("thorough", rng):
@@ -962,7 +1131,7 @@ def search(seed):
 PROPERTY = Property(
     pid="C02",
     streams=[CorpusStream(), textcorr.FindTagStream(), textcorr.CSearchStream(), textcorr.ExtractStream(), SmallEnumStream(), GridStream(), TheoremStream(),
-             LintStream(), WindowStream(), ParseErrorStream(), DecodeStream()],
+             LintStream(), WindowStream(), SnippetFileStream(), ParseErrorStream(), DecodeStream()],
     assumptions=[
         "CPython's re engine on the tag patterns (`^(.*?)TAG[ \\t]+(.*?)END$`, MULTILINE, findall) and on the three copyright patterns is "
         "mirrored by Model.findSpdxTagWith / Model.searchLineWith over the END pattern generated from the source, and compared on every run",
